@@ -7,6 +7,7 @@ import (
 	"fmt"
 	"os"
 	"path/filepath"
+	"regexp"
 	"sort"
 	"strconv"
 	"strings"
@@ -25,6 +26,8 @@ func main() {
 	verif := flag.String("verif", "", "verif directory (default: parent of the binary's dir)")
 	dump := flag.String("dump", "", "debug: calls|paths|fsm|funcs|ssa")
 	fn := flag.String("func", "", "debug: function as rel:recv:name")
+	match := flag.String("match", "", "debug: regexp filter on callee names / RETURN / STORE for -dump calls")
+	mutantRun := flag.Bool("mutant-run", false, "internal: self-test subprocess (prints obligations, writes no evidence)")
 	overlay := flag.String("overlay", "", "comma-separated repoRelFile=replacementFile pairs (in-memory variants for the self-test)")
 	flag.Parse()
 	t0 := time.Now()
@@ -60,7 +63,7 @@ func main() {
 		os.Exit(2)
 	}
 	if *dump != "" {
-		doDump(p, *dump, *fn)
+		doDump(p, *dump, *fn, *match)
 		return
 	}
 	r, ok := rules.Registry[*prop]
@@ -73,6 +76,7 @@ func main() {
 		fatal("unknown property %q; have %v", *prop, ids)
 	}
 	ctx := core.NewCtx(p, *prop, *tier)
+	ctx.MutantRun = *mutantRun
 	ctx.Stats["packages"] = len(p.Pkgs)
 	ctx.Stats["production_functions"] = len(p.Prod)
 	ctx.Stats["load_s"] = p.LoadS
@@ -88,7 +92,7 @@ func main() {
 		}()
 		r.Run(ctx)
 		if *tier == "thorough" {
-			rules.Thorough(ctx, r, *repo)
+			rules.Thorough(ctx, *repo, *verif)
 		}
 	}()
 	code := ctx.Finish(*verif, time.Since(t0), seed, "other", r.Explanation)
@@ -100,7 +104,12 @@ func fatal(f string, a ...interface{}) {
 	os.Exit(2)
 }
 
-func doDump(p *core.Prog, what, fnSpec string) {
+func doDump(p *core.Prog, what, fnSpec, match string) {
+	var re *regexp.Regexp
+	if match != "" {
+		re = regexp.MustCompile(match)
+	}
+	show := func(s string) bool { return re == nil || re.MatchString(s) }
 	var fns []*ssa.Function
 	if fnSpec != "" {
 		for _, one := range strings.Split(fnSpec, ",") {
@@ -135,6 +144,9 @@ func doDump(p *core.Prog, what, fnSpec string) {
 					for _, a := range ci.Common().Args {
 						args = append(args, d.Of(a))
 					}
+					if !show(p.CalleeName(ci.Common())) {
+						continue
+					}
 					fmt.Printf("  %s b%d %s\n      args: %s\n      atoms: %s\n", p.InstrPos(ci), ci.Block().Index, p.CalleeName(ci.Common()),
 						strings.Join(args, " | "), strings.Join(core.AtomStrings(p.AtomsAtInstr(ci)), "  "))
 				}
@@ -142,12 +154,18 @@ func doDump(p *core.Prog, what, fnSpec string) {
 					for _, ins := range b.Instrs {
 						switch x := ins.(type) {
 						case *ssa.Return:
+							if !show("RETURN") {
+								continue
+							}
 							var rs []string
 							for _, r := range x.Results {
 								rs = append(rs, d.Of(r))
 							}
 							fmt.Printf("  %s b%d RETURN %s\n      atoms: %s\n", p.InstrPos(x), b.Index, strings.Join(rs, " | "), strings.Join(core.AtomStrings(p.AtomsAt(b)), "  "))
 						case *ssa.Store:
+							if !show("STORE") {
+								continue
+							}
 							fmt.Printf("  %s b%d STORE %s := %s\n      atoms: %s\n", p.InstrPos(x), b.Index, d.Of(x.Addr), d.Of(x.Val), strings.Join(core.AtomStrings(p.AtomsAt(b)), "  "))
 						}
 					}
